@@ -345,4 +345,30 @@ class is_flag_active_visitor<Flag, flag_and>""")]),
  dict(name='refactor-exit-pt-assign-via-static-cast', prop='C15', refactor=True, edits=[(B, """            ExitPoint::operator=(rhs);
             return *this;""", """            static_cast<ExitPoint&>(*this) = rhs;
             return *this;""")]),
+ dict(name='refactor-msgq-push-helper', prop='C04', refactor=True, edits=[(B, """    template <class EventType>
+    void enqueue_event_helper(EventType const& evt, ::boost::mpl::false_ const &)
+    {
+        execute_return (library_sm::*pf) (EventType const&, EventSource) =
+            &library_sm::process_event_internal;
+
+        m_events_queue.m_events_queue.push_back(
+            ::boost::bind(
+                pf, this, evt,
+                static_cast<EventSource>(EVENT_SOURCE_MSG_QUEUE)));
+    }""", """    template <class Callable>
+    void push_to_message_queue(Callable const& c)
+    {
+        m_events_queue.m_events_queue.push_back(c);
+    }
+    template <class EventType>
+    void enqueue_event_helper(EventType const& evt, ::boost::mpl::false_ const &)
+    {
+        execute_return (library_sm::*pf) (EventType const&, EventSource) =
+            &library_sm::process_event_internal;
+
+        push_to_message_queue(
+            ::boost::bind(
+                pf, this, evt,
+                static_cast<EventSource>(EVENT_SOURCE_MSG_QUEUE)));
+    }""")]),
 ]
